@@ -60,6 +60,12 @@ func execC14(seg []Ev) []Ev {
 			e["s"] = cps(s)
 			var enc, dec string
 			oc, det := guarded(func() {
+				// a state object serves several quote characters in turn: an earlier call with another one must not matter
+				other := '\''
+				if q == '\'' {
+					other = '"'
+				}
+				_ = qs.DecodeString(qs.EncodeString("x"+string(other)+"y", other), other)
 				enc = qs.EncodeString(s, q)
 				dec = qs.DecodeString(enc, q)
 			})
@@ -82,6 +88,7 @@ func execC14(seg []Ev) []Ev {
 			e["s"], e["tail"] = cps(s), cps(tail)
 			var enc, first, decoded string
 			oc, det := guarded(func() {
+				_ = qs.EncodeString("x'y\"z", map[bool]rune{true: '"', false: '\''}[q == '\''])
 				enc = qs.EncodeString(s, q)
 				mk := func(decode bool) tokenizers.ITokenizer {
 					var t tokenizers.ITokenizer
@@ -179,7 +186,7 @@ func genC14(g *Gen) {
 			}
 			qq := q
 			if st == "csv" && r.Intn(2) == 0 {
-				qq = []rune{'\'', '`', '|'}[r.Intn(3)]
+				qq = []rune{'\'', '`', '|', 0x201D, 0xFF02, 0xAB}[r.Intn(6)]
 			}
 			tl := tails[st][r.Intn(len(tails[st]))]
 			g.Run("random read in stream", []Ev{{"op": "read", "state": st, "s": cpsR(s), "q": int(qq), "tail": cpsR(tl)}})
